@@ -7,7 +7,7 @@ A contract object provides
     post(inputs, result) -> list of (clause name, z3 Bool)      [same code evaluates concrete values]
     sample(rng, shape)   -> dict of concrete native inputs satisfying the precondition (cross-check/bounded)
 """
-import time, subprocess, tempfile, os, traceback
+import time, subprocess, tempfile, os, traceback, re
 import numpy as np
 import z3
 from . import bv as B
@@ -275,7 +275,7 @@ def verify_contract(contract, shape, tier, rng, part=(0, 1), crosscheck=4):
                 continue
             oid = f'{base}.{cname}[{sh}]#p{pi}'
             hyp_c = hyp + list(extra.get('hyps', []))
-            deps = [d if d.startswith(prop + '.') else f'{base}.{d}[{sh}]#p{pi}' for d in extra.get('depends', [])]
+            deps = [d if re.match(r'C\d\d\.', d) else f'{base}.{d}[{sh}]#p{pi}' for d in extra.get('depends', [])]
             r, m, dt, be, nq = solve_goal(hyp_c, goal, timeout)
             if r == 'unsat':
                 rec = ob(oid, 'proved', functions=funcs, tier='P', time_s=dt, backend=be, queries=nq)
